@@ -41,7 +41,7 @@ func (m *cbpMore) earlyField() *types.Var {
 	if m.procType == nil {
 		return nil
 	}
-	st := m.procType.Underlying().(*types.Struct)
+	st := core.FlatStruct(m.procType)
 	var out *types.Var
 	for i := 0; i < st.NumFields(); i++ {
 		if isBool(st.Field(i).Type()) {
@@ -619,7 +619,7 @@ func c06_4(c *core.Ctx, p *core.Prog) {
 	}
 	fn := a.apportionFn()
 	// shard fields: pending slice, totalSent
-	st := a.shard.Underlying().(*types.Struct)
+	st := core.FlatStruct(a.shard)
 	var pendingF, totalF *types.Var
 	for i := 0; i < st.NumFields(); i++ {
 		f := st.Field(i)
@@ -1143,7 +1143,7 @@ func c06_7(c *core.Ctx, p *core.Prog) {
 		return
 	}
 	fn := m.processFn
-	st := a.shard.Underlying().(*types.Struct)
+	st := core.FlatStruct(a.shard)
 	var pendingF *types.Var
 	for i := 0; i < st.NumFields(); i++ {
 		f := st.Field(i)
@@ -1279,7 +1279,7 @@ func c06_11(c *core.Ctx, p *core.Prog) {
 		return
 	}
 	fn := a.apportionFn()
-	st := a.shard.Underlying().(*types.Struct)
+	st := core.FlatStruct(a.shard)
 	var pendingF *types.Var
 	for i := 0; i < st.NumFields(); i++ {
 		f := st.Field(i)
